@@ -20,7 +20,7 @@ Closed == {Lx("t", <<"HTML">>), Lx("{{ 1 }}", <<"LBRACES", "INT", "RBRACES">>), 
            Lx("{{ x = 1 }}", <<"LBRACES", "IDENT", "ASSIGN", "INT", "RBRACES">>), Lx("{{ x = 1; x }}", <<"LBRACES", "IDENT", "ASSIGN", "INT", "SEMI", "IDENT", "RBRACES">>),
            Lx("{{ x = }}", <<"LBRACES", "IDENT", "ASSIGN", "RBRACES">>), Lx("{{ 1; ; 2 }}", <<"LBRACES", "INT", "SEMI", "SEMI", "INT", "RBRACES">>),
            Lx("{{ }}", <<"LBRACES", "RBRACES">>), Lx("{{ 1 + }}", <<"LBRACES", "INT", "ADD", "RBRACES">>), Lx("{{ {a: 1 2} }}", <<"LBRACES", "LBRACE", "IDENT", "COLON", "INT", "INT", "RBRACE", "RBRACES">>),
-           Lx("{{ (1 }}", <<"LBRACES", "LPAREN", "INT", "RBRACES">>), Lx("{{ {a: 1,} }}", <<"LBRACES", "LBRACE", "IDENT", "COLON", "INT", "COMMA", "RBRACE", "RBRACES">>)}
+           Lx("{{ (1 }}", <<"LBRACES", "LPAREN", "INT", "RBRACES">>), Lx("{{ 1 {{-- c --}} + 2 {{-- d --}} }}", <<"LBRACES", "INT", "ADD", "INT", "RBRACES">>), Lx("{{ {a: 1,} }}", <<"LBRACES", "LBRACE", "IDENT", "COLON", "INT", "COMMA", "RBRACE", "RBRACES">>)}
 \* component uses whose slot bodies are separated from the ")" and from each other by white space that comments split
 \* into several tokens; a use without slots followed by white space and a {{ }}
 SlotLx == {Lx("@component(\"c\") {{-- c --}} @slot s @end @end", <<"COMPONENT", "LPAREN", "STR", "RPAREN", "WS", "WS", "SLOT", "HTML", "END", "WS", "END">>),
@@ -47,7 +47,11 @@ Open == {Lx("{{ 1", <<"LBRACES", "INT">>), Lx("{{", <<"LBRACES">>), Lx("{{ {a: 1
          Lx("@for(i = 0; i", <<"FOR", "LPAREN", "IDENT", "ASSIGN", "INT", "SEMI", "IDENT">>), Lx("@for(", <<"FOR", "LPAREN">>), Lx("@for(;", <<"FOR", "LPAREN", "SEMI">>),
          Lx("@breakIf(x", <<"BREAK_IF", "LPAREN", "IDENT">>), Lx("@dump(1,", <<"DUMP", "LPAREN", "INT", "COMMA">>), Lx("@reserve(\"r\"", <<"RESERVE", "LPAREN", "STR">>),
          Lx("{{ x =", <<"LBRACES", "IDENT", "ASSIGN">>), Lx("{{ x = 1;", <<"LBRACES", "IDENT", "ASSIGN", "INT", "SEMI">>),
-         Lx("{{ \"abc", <<"LBRACES", "ILLEGAL">>), Lx("{{-- c", <<"ILLEGAL">>), Lx("{{ ~ }}", <<"LBRACES", "ILLEGAL", "RBRACES">>)}
+         Lx("{{ \"abc", <<"LBRACES", "ILLEGAL">>), Lx("{{-- c", <<"ILLEGAL">>), Lx("{{ ~ }}", <<"LBRACES", "ILLEGAL", "RBRACES">>),
+         \* a comment as the last thing before the end of the input: the code before it is as open as without it
+         Lx("{{ 1 {{-- c --}}", <<"LBRACES", "INT">>), Lx("{{ 1 + {{-- c --}}", <<"LBRACES", "INT", "ADD">>), Lx("{{ x = 1 {{-- c --}}", <<"LBRACES", "IDENT", "ASSIGN", "INT">>),
+         Lx("{{ x = {{-- c --}}", <<"LBRACES", "IDENT", "ASSIGN">>), Lx("@if(x {{-- c --}}", <<"IF", "LPAREN", "IDENT">>), Lx("@insert(\"a\", {{-- c --}}", <<"INSERT", "LPAREN", "STR", "COMMA">>),
+         Lx("{{ {{-- c --}}", <<"LBRACES">>)}
 InCodeAfter(l) == l.ts[Len(l.ts)] # "ILLEGAL" /\ l.src # "{{ ~ }}"
 
 \* every sequence over A of length <= n: the functions 1..n -> A + a padding element, with the padding dropped. (A union
